@@ -314,9 +314,10 @@ def mime_table(chk, prog, cfg):
 def directory_protocol(chk, prog, cfg):
     """R4: Directory -> 301 Location = uri + '/'; INDEX_FILES order."""
     n = 0
+    newf = set(getattr(prog, "new_functions", []) or [])
     for p, b in prog.bodies.items():
-        if "promoted" in p:
-            continue
+        if "promoted" in p or p in newf:
+            continue        # (a helper split off a handler is looked at where it was inlined)
         if not (p.startswith("humphrey::handlers::") or p.startswith("humphrey::tokio::handlers::") or p.startswith("<humphrey::tokio::handlers::")
                 or p.startswith("humphrey_server::server::static::directory_handler")):
             continue
@@ -456,9 +457,10 @@ def strip_equiv(prog, body, d):
 def request_path_derivation(chk, prog, cfg):
     """R5: the path looked up inside the directory is the request target with the route prefix removed once, and nothing else."""
     n = 0
+    newf = set(getattr(prog, "new_functions", []) or [])
     for path, b in sorted(prog.bodies.items()):
-        if path.startswith("humphrey::route::try_find_path"):
-            continue
+        if path.startswith("humphrey::route::try_find_path") or path in newf:
+            continue        # (a helper split off a handler is looked at where it was inlined)
         for blk, t in b.calls_to(r"route::try_find_path$"):
             n += 1
             d = core.describe_r(prog, b, t["args"][1])
